@@ -381,7 +381,10 @@ PlanMetric(q, db) ==
         ELSE LET r0 == IF Shortcut(q, pp) THEN ShortcutRows(q, db, pp) ELSE LraRows(q, db, pp)
                  r1 == Having(q, q.mq.cmpl, r0)
                  r2 == Having(q, q.mq.cmpa, AggPlanRows(q, db, r1))
-                 r3 == TopPlanRows(q, r2)
+                 (* getFunctionOrder (TopK: visit the operand, planTopK, maybeComparison) and planMetrics15Shortcut   *)
+                 (* (TopK: dfs into the operand, planTopK, planComparison) agree: the HAVING of the comparison written *)
+                 (* after topk / bottomk is on the SELECT that unfolds the slice, not on par_a                         *)
+                 r3 == Having(q, q.mq.cmpt, TopPlanRows(q, r2))
                  r4 == StepFixRows(q, r3)
              IN  [err |-> FALSE, series |-> FixPeriodSeries(q, db, r4)]
 =============================================================================
